@@ -56,6 +56,12 @@ CLAIMED = {
             "Vertex ids are only compared, sorted and packed, so they stay symbolic: for one face (any int64 ids) and for two faces (face 0 = a representative of each face shape, face 1 = ANY three integers below 2^20) every equality/order pattern is a path and edges, adjacency with shared edge, watertightness, winding consistency and unique edges equal their counting definitions. "
             "Trimesh-level values (edges*, adjacency, Euler number, degree, neighbours, incident faces, components with both back-ends, body count) are checked on all 4096 two-face arrays over ids < 4 and the tetrahedron family with arbitrary winding / repeated / degenerate / missing faces.",
             TRUSTED + "listing order of pairs/edges not part of the claim; vertex_faces compared as sets and self-loop neighbours of degenerate faces ignored (ambiguous by the statement); angle-defect sum only on two concrete closed manifolds; more than 2 symbolic / 3 enumerated faces not claimed."),
+    "C07": ("other", "DESIGN.md#c07", "symbolic execution of Trimesh.update_faces / update_vertices / remove_unreferenced_vertices / merge_vertices / unique_faces / nondegenerate_faces / submesh / split / concatenate with solver-variable masks, index lists, face arrays and twin-vertex offsets; z3 decides corner-position obligations, tags decide alignment per path",
+            "Boolean masks are symbolic Bools, integer masks / index lists / face arrays symbolic Ints resolved by solver-driven forking (every feasible value is a path), twin vertices sit at a SYMBOLIC offset from their originals so the code's own round(v*10^digits) decides which merge. After each operation every surviving triangle's nine coordinates are compared with the pre-operation triangle (exactly; within 1e-8 for merging), face order, face/vertex attributes and colours are compared against distinct tags, faces.max() < len(vertices), and concatenate(split(m)) is compared as a triangle multiset.",
+            TRUSTED + "meshes <= 4 faces / 7 vertices; twin offsets |d|<=3e-8; NaN/inf removal, texture (PIL) and vertex-normal merging options not claimed."),
+    "C10": ("other", "DESIGN.md#c10", "symbolic execution of Scene.bounds_corners/bounds/extents/centroid/area/volume/triangles/dump/to_mesh/copy/scaled/rezero/apply_transform/__add__/subscene with symbolic edge matrices; z3 compares every placed vertex with the dictionary-oracle placement for all parameter values",
+            "A real Scene (geometry instanced twice through a nested node, a second geometry, a node without geometry, a geometry without node) is built with symbolic edge matrices from four families (translations, x->s*x+t, catalogue rotations with symbolic translation, mixed) and every scene quantity is compared with the explicit placement W(node).v (bounds as If-min/max terms, triangles per node, dump/to_mesh per instance, area/volume as s^2/s^3-weighted sums). Derived scenes are compared the same way and the source scene with its snapshot.",
+            TRUSTED + "two catalogue geometries; scale factors in prime-centred intervals (fix_rigid band excluded); documented shortcut bands of scaled (|k-1|<=2e-5) and rezero (centroid within 1e-3 of origin) excluded; convex hull, cameras, lights, unit strings not claimed."),
 }
 
 NOT_APPLICABLE = {
